@@ -200,7 +200,8 @@ theorem rewrite_port (m p' host ds path : Bytes) (hs : HMap) (hne : host ≠ [])
   have hT := hostTake host (58 :: ds ++ path)
   have hD := portDrop host ds path
   rw [← List.append_assoc] at hT
-  unfold rewrite
+  have hport : ¬ ((digitsVal 0 ds : Int) < 0 ∨ (digitsVal 0 ds : Int) > 65535) := by omega
+  unfold rewrite reqPort
   simp only [ht7, ne_eq, not_true_eq_false, if_false, hps]
   by_cases hpe : path = []
   · subst hpe
@@ -208,9 +209,9 @@ theorem rewrite_port (m p' host ds path : Bytes) (hs : HMap) (hne : host ≠ [])
     simp only [List.append_nil] at hT hD hA
     simp only [if_true, List.append_nil, hL58]
     rcases hL93 with h93 | ⟨b, h93, hb⟩
-    · simp only [h93, hgt, if_true, hT, hD, hA]
+    · simp only [h93, hgt, if_true, hT, hD, hA, hport, if_false]
     · have hnb : ¬ (7 + host.length < b) := by omega
-      simp only [h93, hnb, hgt, if_true, if_false, hT, hD, hA]
+      simp only [h93, hnb, hgt, if_true, if_false, hT, hD, hA, hport]
   · simp only [hpe, if_false, List.take_left, List.drop_left, hL58]
     have hA := atoi_digits ds (path.take ((HTTP_PFX ++ host ++ 58 :: ds).length - ds.length)) hdne hd
       (take_head _ _ hp) hv
@@ -219,9 +220,9 @@ theorem rewrite_port (m p' host ds path : Bytes) (hs : HMap) (hne : host ≠ [])
         = ds ++ path.take ((HTTP_PFX ++ host ++ 58 :: ds).length - ds.length) := by
       rw [List.take_append, List.take_of_length_le hle]
     rcases hL93 with h93 | ⟨b, h93, hb⟩
-    · simp only [h93, hgt, if_true, hT, hD, hTA, hA]
+    · simp only [h93, hgt, if_true, hT, hD, hTA, hA, hport, if_false]
     · have hnb : ¬ (7 + host.length < b) := by omega
-      simp only [h93, hnb, hgt, if_true, if_false, hT, hD, hTA, hA]
+      simp only [h93, hnb, hgt, if_true, if_false, hT, hD, hTA, hA, hport]
 
 theorem rewrite_noport (m p' host path : Bytes) (hs : HMap) (hne : host ≠ []) (h47 : 47 ∉ host)
     (hb : 58 ∉ host ∨ host.getLast? = some 93) (hp : path = [] ∨ path.head? = some 47) :
@@ -251,26 +252,27 @@ theorem rewrite_noport (m p' host path : Bytes) (hs : HMap) (hne : host ≠ []) 
         cases h : findLast (HTTP_PFX ++ init) 58 with
         | none => left; rfl
         | some he => right; exact ⟨he, rfl, findLast_lt h⟩
-  unfold rewrite
+  have h80 : ¬ ((80 : Int) < 0 ∨ (80 : Int) > 65535) := by omega
+  unfold rewrite reqPort
   simp only [ht7, ne_eq, not_true_eq_false, if_false, hps]
   by_cases hpe : path = []
   · subst hpe
     simp only [if_true, List.append_nil]
     rcases key with ⟨he, h58, hle, h93 | ⟨b, h93⟩⟩ | ⟨b, h93, h58 | ⟨he, h58, hlt⟩⟩
     · have : ¬ he > 7 := by omega
-      simp only [h58, h93, this, if_false, hD']
+      simp only [h58, h93, this, if_false, hD', h80]
     · have : ¬ he > 7 := by omega
-      by_cases hc : he < b <;> simp only [h58, h93, hc, this, if_true, if_false, hD']
-    · simp only [h58, h93, hD']
-    · simp only [h58, h93, hlt, if_true, hD']
+      by_cases hc : he < b <;> simp only [h58, h93, hc, this, if_true, if_false, hD', h80]
+    · simp only [h58, h93, hD', h80, if_false]
+    · simp only [h58, h93, hlt, if_true, hD', h80, if_false]
   · simp only [hpe, if_false, List.take_left, List.drop_left, hD, hlen]
     rcases key with ⟨he, h58, hle, h93 | ⟨b, h93⟩⟩ | ⟨b, h93, h58 | ⟨he, h58, hlt⟩⟩
     · have : ¬ he > 7 := by omega
-      simp only [h58, h93, this, if_false]
+      simp only [h58, h93, this, if_false, h80]
     · have : ¬ he > 7 := by omega
-      by_cases hc : he < b <;> simp only [h58, h93, hc, this, if_true, if_false]
-    · simp only [h58, h93]
-    · simp only [h58, h93, hlt, if_true]
+      by_cases hc : he < b <;> simp only [h58, h93, hc, this, if_true, if_false, h80]
+    · simp only [h58, h93, h80, if_false]
+    · simp only [h58, h93, hlt, if_true, h80, if_false]
 
 /-! ### the theorem -/
 
